@@ -797,8 +797,22 @@ class Interp:
         self._yield_acc = join(self._yield_acc, self.elem_of(self.ev(n.value, env)))
         return BOTTOM
 
+    def record_fields(self, v: AV) -> "list[AV] | None":
+        """the components, in declaration order, of a value that can only be an instance of one NamedTuple class of the package
+        (unpacking / indexing / iterating such a record yields its fields)"""
+        classes = [self.ix.classes[t] for t in v.types if t in self.ix.classes]
+        if len(classes) != 1 or (v.types - {classes[0].qual}):
+            return None
+        c = classes[0]
+        if not any((dotted(b) or "").rsplit(".", 1)[-1] == "NamedTuple" for b in c.base_exprs):
+            return None
+        return [self.getattr_av(v, f) for f in c.fields]
+
     def elem_of(self, v: AV) -> AV:
         out = v.elem or BOTTOM
+        rec = self.record_fields(v) if v.types and not v.tup else None
+        if rec:
+            out = join(out, join_all(rec))
         if v.tup:
             out = join(out, join_all(v.tup))
         if "dict" in v.types and v.key is not None and v.elem is not None and not (v.types - {"dict", "None"}):
@@ -816,6 +830,10 @@ class Interp:
                 self.ev(s, env)
             return replace(v, alts=None, consts=None)
         idx = self.ev(n.slice, env)
+        if v.tup is None and v.types:
+            rec = self.record_fields(v)
+            if rec is not None:
+                v = replace(v, tup=tuple(rec))
         if v.tup is not None and idx.consts and len(idx.consts) == 1:
             i = next(iter(idx.consts))
             if isinstance(i, int) and -len(v.tup) <= i < len(v.tup):
@@ -1435,6 +1453,9 @@ class Interp:
             env[target.id] = join(env.get(target.id), v) if weak else v
         elif isinstance(target, (ast.Tuple, ast.List)):
             n = len(target.elts)
+            rec = self.record_fields(v) if v.tup is None and v.types else None
+            if rec is not None and len(rec) == n and not any(isinstance(t, ast.Starred) for t in target.elts):
+                v = replace(v, tup=tuple(rec))
             for i, t in enumerate(target.elts):
                 if isinstance(t, ast.Starred):
                     self.assign(t.value, AV(types=frozenset({"list"}), elem=self.elem_of(v)), env, where, weak)
